@@ -605,7 +605,7 @@ func anyString(r *gen.Rand, n int) string {
 	}
 }
 
-var flSeen struct{ complete, hostile, stale, chain int }
+var flSeen struct{ complete, hostile, stale, chain, overlap int }
 
 func runFlash(e *ev.Env) {
 	setup(e)
@@ -664,6 +664,12 @@ func runFlash(e *ev.Env) {
 	e.Corpus("chained-redirect-two-hops", func(c *ev.Case) {
 		chainScript(e, c, &flashSpec{msgs: []fmsg{{Key: "notice", Value: "submitted", Level: 'A'}}, noLevel: []bool{false},
 			hops: [][]fmsg{{{Key: "notice", Value: "confirmed", Level: 'B'}}}})
+	})
+	e.Corpus("chained-redirect-middle-hop-attaches-nothing", func(c *ev.Case) {
+		chainScript(e, c, &flashSpec{msgs: []fmsg{{Key: "notice", Value: "submitted", Level: 'A'}}, noLevel: []bool{false}, hops: [][]fmsg{nil}})
+	})
+	e.Corpus("overlapping-requests", func(c *ev.Case) {
+		overlapCase(e, c, []fmsg{{Key: "for", Value: "alice", Level: 'A'}}, []fmsg{{Key: "for", Value: "bob", Level: 'B'}, {Key: "more", Value: "for bob", Level: 'C'}})
 	})
 	// a message key that is also a submitted field, in both call orders
 	script("message-key-equals-field-input-first", &flashSpec{msgs: []fmsg{{Key: "email", Value: "is taken", Level: 'A'}}, noLevel: []bool{false}, withInput: true, inputFirst: true},
@@ -783,9 +789,26 @@ func runFlash(e *ev.Env) {
 		spec := &flashSpec{msgs: set(1), pathA: gen.Pick(r, flashPathsA), pathB: gen.Pick(r, flashPathsB)}
 		spec.noLevel = make([]bool, len(spec.msgs))
 		for i, n := 0, r.Range(1, 3); i < n; i++ {
-			spec.hops = append(spec.hops, set(1))
+			if r.Chance(1, 3) {
+				spec.hops = append(spec.hops, nil) // consumes and forwards without new messages
+			} else {
+				spec.hops = append(spec.hops, set(1))
+			}
 		}
 		chainScript(e, c, spec)
+	})
+
+	// -------- overlapping requests ------------------------------------------------------------
+	e.Cases("overlap", e.N(600, 20000), func(c *ev.Case) {
+		r := c.R
+		set := func() []fmsg {
+			ms := make([]fmsg, r.Range(1, 8))
+			for i := range ms {
+				ms[i] = fmsg{Key: safeBytes(r, r.Range(1, 8)) + itoa(i), Value: safeBytes(r, r.Range(0, 20)), Level: safeByte(r)}
+			}
+			return ms
+		}
+		overlapCase(e, c, set(), set())
 	})
 
 	// -------- hostile cookies ----------------------------------------------------------------
@@ -916,6 +939,9 @@ func runFlash(e *ev.Env) {
 		}
 		if flSeen.hostile == 0 {
 			e.Inconclusive("no hostile cookie reached handler B in this shard")
+		}
+		if flSeen.overlap == 0 {
+			e.Inconclusive("no pair of overlapping cookie-carrying requests was served")
 		}
 		if flSeen.chain == 0 {
 			e.Inconclusive("no chained redirect completed in this shard")
@@ -1742,7 +1768,17 @@ func chainScript(e *ev.Env, c *ev.Case, spec *flashSpec) {
 	path := spec.a()
 	for step := 0; step <= len(spec.hops)+1; step++ {
 		cookie, has := ua.cookieFor(path)
-		if step > 0 && !has {
+		if step > 0 && len(sets[step-1]) == 0 && has {
+			// the hop before consumed the messages and redirected on without new ones: its
+			// response had to expire the cookie
+			e.Violation(c, "flash|cookie-not-expired", "hop "+itoa(step-1)+" consumed the messages and redirected without new ones, but the client still holds the flash cookie", detail)
+			_, _, _, p := fa.serveAt(e, c, path, cookie, true)
+			if !p && fa.rep.ran && fa.rep.nMsg+fa.rep.nOld > 0 {
+				e.Violation(c, "flash|delivered-twice", "the target of a redirect that attached nothing sees the messages of the hop before it again", detail)
+			}
+			return
+		}
+		if step > 0 && len(sets[step-1]) > 0 && !has {
 			e.Violation(c, "flash|chained-redirect|cookie-of-hop-lost", "after hop "+itoa(step-1)+" the client holds no flash cookie for "+path+": the messages that hop attached are not delivered", detail)
 			return
 		}
@@ -1792,4 +1828,97 @@ func chainScript(e *ev.Env, c *ev.Case, spec *flashSpec) {
 	flSeen.chain++
 	e.Stat("chain_scripts_complete", 1)
 	e.Nontrivial("chain", itoa(len(spec.hops)), itoa(len(sets[0])), itoa(len(sets[len(sets)-1])), spec.a(), spec.b())
+}
+
+// ---------------------------------------------------------------------------------------------
+// overlapping requests
+
+// overlapCase: request A (cookie msgsA) is parked in its handler before it reads the messages;
+// request B (cookie msgsB) is served completely on another connection meanwhile; then A goes on.
+// Each handler must see its own request's messages. Parking is by channels, so the interleaving is
+// the same on every run (one P; the second Serve runs on this goroutine).
+func overlapCase(e *ev.Env, c *ev.Case, msgsA, msgsB []fmsg) {
+	if hungAbort {
+		return
+	}
+	entered, release := make(chan struct{}), make(chan struct{})
+	type seen struct {
+		ran  bool
+		msgs []fiber.FlashMessage
+	}
+	var sa, sb seen
+	read := func(c fiber.Ctx, s *seen) {
+		s.ran = true
+		for _, m := range c.Redirect().Messages() {
+			s.msgs = append(s.msgs, fiber.FlashMessage{Key: strings.Clone(m.Key), Value: strings.Clone(m.Value), Level: m.Level})
+		}
+	}
+	app := fiber.New(fiber.Config{ReadBufferSize: 16384})
+	app.Get("/park", func(c fiber.Ctx) error {
+		close(entered)
+		<-release
+		read(c, &sa)
+		return c.SendString("a")
+	})
+	app.Get("/b", func(c fiber.Ctx) error {
+		read(c, &sb)
+		return c.SendString("b")
+	})
+	w := drive.NewWire(app)
+	req := func(path string, ms []fmsg) []byte {
+		return append(append([]byte("GET "+path+" HTTP/1.1\r\nHost: flash.example.com\r\nCookie: "+fiber.FlashCookieName+"="), mpFlash(ms)...), "\r\n\r\n"...)
+	}
+	doneA := make(chan bool, 1)
+	go func() {
+		doneA <- e.Guard(c, "flash", "overlap A", func() { _, _ = w.Serve(req("/park", msgsA), nil) })
+	}()
+	select {
+	case <-entered:
+	case p := <-doneA:
+		// the request never reached the handler (refused): nothing to observe
+		_ = p
+		e.Stat("overlap_a_not_parked", 1)
+		return
+	}
+	pB := e.Guard(c, "flash", "overlap B", func() { _, _ = w.Serve(req("/b", msgsB), nil) })
+	close(release)
+	pA := <-doneA
+	e.Eval(2)
+	if pA || pB || !sa.ran || !sb.ran {
+		return
+	}
+	flSeen.overlap++
+	e.Stat("overlap_pairs", 1)
+	e.Nontrivial("overlap", itoa(len(msgsA)), itoa(len(msgsB)))
+	same := func(got []fiber.FlashMessage, want []fmsg) bool {
+		if len(got) != len(want) {
+			return false
+		}
+		for i := range want {
+			if got[i].Key != want[i].Key || got[i].Value != want[i].Value || got[i].Level != want[i].Level {
+				return false
+			}
+		}
+		return true
+	}
+	list := func(ms []fiber.FlashMessage) []string {
+		var out []string
+		for _, m := range ms {
+			out = append(out, msgKey(m.Key, m.Value, m.Level))
+		}
+		return out
+	}
+	var wa, wb []string
+	for _, m := range msgsA {
+		wa = append(wa, msgKey(m.Key, m.Value, m.Level))
+	}
+	for _, m := range msgsB {
+		wb = append(wb, msgKey(m.Key, m.Value, m.Level))
+	}
+	detail := map[string]any{"a_carried": wa, "a_saw": list(sa.msgs), "b_carried": wb, "b_saw": list(sb.msgs)}
+	if !same(sa.msgs, msgsA) {
+		e.Violation(c, "flash|overlapping-requests|handler-sees-messages-of-another-request", "the handler of a request that was under way while another cookie-carrying request was served does not see its own messages", detail)
+	} else if !same(sb.msgs, msgsB) {
+		e.Violation(c, "flash|overlapping-requests|handler-sees-messages-of-another-request", "the handler of the request served in between does not see its own messages", detail)
+	}
 }
